@@ -594,3 +594,7 @@ mod tests {
         Ok(())
     }
 }
+
+#[cfg(kani)]
+#[path = "/verif/harness/bcf/info_value.rs"]
+mod verif_kani;
